@@ -1075,3 +1075,74 @@ Proof.
   - unfold realises. apply Forall2_of_combine; [exact Hlen|exact Hvote].
 Qed.
 End Assembly.
+
+(* ============================================================================================== *)
+(* 11. soundness of the mirror                                                                     *)
+(* ============================================================================================== *)
+Lemma single_order_realised (r : list N) : NoDup r ->
+  let xs := map (fun rc => (snd rc, qnat (S (fst rc)))) (combine (seq 0 (length r)) r) in
+  (forall a, In a r -> exists q, apos_lookup xs a = Some q) /\ vote_realised (posf xs) 0 r.
+Proof.
+  intros Hnd xs.
+  assert (Hkeys : map fst xs = r).
+  { unfold xs. rewrite map_map. cbn [fst]. apply map_snd_combine_seq. }
+  assert (Hlook : forall i a, nth_error r i = Some a -> apos_lookup xs a = Some (qnat (S i))).
+  { intros i a Hi. apply apos_lookup_In; [now rewrite Hkeys|]. unfold xs. apply in_map_iff. exists (i, a).
+    split; [reflexivity|]. apply in_combine_seq. rewrite Nat.sub_0_r. split; [lia|assumption]. }
+  split.
+  - intros a Ha. apply In_nth_error in Ha. destruct Ha as (i & Hi). exists (qnat (S i)). now apply Hlook.
+  - intros i j a b Hij Hi Hj. unfold closer, posf. rewrite (Hlook i a Hi), (Hlook j b Hj). unfold qdist.
+    pose proof (qnat_nonneg (S i)). pose proof (qnat_lt (S i) (S j) ltac:(lia)).
+    rewrite !Qabs_neg by lra. lra.
+Qed.
+
+Section Sound.
+Variable lp_solve : list (list N) -> list N -> option (list Q * list (N * Q)).
+Hypothesis lp_sound : forall prefs axis vs xs, lp_solve prefs axis = Some (vs, xs) -> lp_sat prefs axis vs xs.
+
+Theorem eucl_algo_sound alts orders vs xs : wf_profile alts orders ->
+  eucl_algo lp_solve alts orders = Ok (Some (vs, xs)) -> eucl_check alts orders vs xs = true.
+Proof.
+  intros Hwf H. pose proof Hwf as (Hnd & Hndo & Hrk). unfold eucl_algo in H.
+  destruct (sc_algo alts orders) as [[sc_order|]|e] eqn:Esc; try discriminate.
+  pose proof (sc_algo_sound alts orders sc_order Hwf Esc) as Hw.
+  apply (sc_witness_check_perm alts orders sc_order Hndo) in Hw. destruct Hw as (Hperm & Hsc).
+  destruct sc_order as [|v1 seqt]; [discriminate|].
+  remember (last (v1 :: seqt) v1) as vn eqn:Hvn.
+  destruct v1 as [|c_minus v1t] eqn:Ev1; [discriminate|]. destruct vn as [|c_plus vnt] eqn:Evn; [discriminate|].
+  rewrite <- Ev1 in *. rewrite <- Evn in *.
+  assert (Hv1p : Permutation alts v1).
+  { rewrite Forall_forall in Hrk. apply Hrk. eapply Permutation_in; [apply Permutation_sym; exact Hperm|now left]. }
+  destruct (length orders =? 1)%nat eqn:En.
+  - (* a single order *)
+    apply Nat.eqb_eq in En. injection H as <- <-.
+    destruct orders as [|r [|r2 t]]; try discriminate.
+    apply Permutation_length_1_inv in Hperm. injection Hperm as <- ->.
+    assert (Hndr : NoDup v1) by (eapply Permutation_NoDup; eassumption).
+    destruct (single_order_realised v1 Hndr) as (Hl & Hv). apply eucl_check_correct. split; [|split].
+    + intros a Ha. apply Hl. eapply Permutation_in; eassumption.
+    + intros r a [<-|[]] Ha. now apply Hl.
+    + constructor; [exact Hv|constructor].
+  - apply Nat.eqb_neq in En.
+    destruct (colour_loop v1 vn alts (gamma0 v1 vn c_minus c_plus)) as [g|] eqn:Ecl; [|discriminate].
+    set (plus := filter (fun c => negb (is_grey (g c))) alts) in *.
+    set (counted := map (fun c => (c, axis_count v1 vn g plus c)) plus) in *.
+    set (axis := map fst (sort_by (fun cv : N * nat => (- Z.of_nat (snd cv))%Z) counted)) in *.
+    destruct (lp_solve (map (filter (fun c => memb c plus)) orders) axis) as [[voters alternatives]|] eqn:Elp; [|discriminate].
+    injection H as <- <-. apply lp_sound in Elp.
+    apply eucl_check_correct.
+    assert (Haxis : Permutation plus axis).
+    { unfold axis. assert (E : plus = map fst counted) by (unfold counted; rewrite map_map; cbn; now rewrite map_id).
+      rewrite E at 1. apply Permutation_map. apply sort_by_perm. }
+    assert (Hlen2 : seqt <> []).
+    { intros E. apply Permutation_length in Hperm. rewrite E in Hperm. cbn in Hperm. congruence. }
+    assert (Hhead : exists c t, v1 = c :: t /\ memb c plus = true).
+    { exists c_minus, v1t. split; [exact Ev1|]. apply memb_In. unfold plus. apply filter_In. split.
+      - eapply Permutation_in; [apply Permutation_sym; exact Hv1p|]. rewrite Ev1. now left.
+      - assert (Hg : g c_minus <> Grey).
+        { apply (coloured_stays _ _ _ _ _ _ Ecl). unfold gamma0. rewrite N.eqb_refl, orb_true_r. cbn. discriminate. }
+        destruct (g c_minus); try reflexivity. congruence. }
+    exact (assembled alts orders v1 vn seqt (gamma0 v1 vn c_minus c_plus) g axis voters alternatives
+             Hnd Hndo Hrk Hperm Hsc Hvn Ecl Haxis Elp Hlen2 Hhead).
+Qed.
+End Sound.
